@@ -46,7 +46,17 @@ func runC15(c *Ctx) {
 	if m, ok := tmp.Extra["_model"].(*shellModel); ok && m != nil && m.interpOK {
 		sm = m
 	} else {
-		c.undecided("R-QUOTE-TYPESTATE", "shell tokenizer model", 0, "the package tokenizer could not be extracted (see C16): composition with Split not possible")
+		short := false
+		for _, o := range tmp.Obligs {
+			if o.Rule == "R-CLASSOF" && o.Construct == "shell.classOf:covers every byte" && o.Verdict == "violated" {
+				short = true
+				c.Obligs = append(c.Obligs, Oblig{Rule: "R-QUOTE-TYPESTATE", Construct: c.uniq("R-QUOTE-TYPESTATE", "shell tokenizer model:class table covers every byte"), Pos: o.Pos, Verdict: "violated", Config: c.P.Config,
+					Msg: "Quote copies bytes ≥ 0x80 through unchanged, and Split cannot read them back: " + o.Msg})
+			}
+		}
+		if !short {
+			c.undecided("R-QUOTE-TYPESTATE", "shell tokenizer model", 0, "the package tokenizer could not be extracted (see C16): composition with Split not possible")
+		}
 	}
 	q := &qx{c: c, P: P, sm: sm, pkg: quoteFn.Pkg, summaries: map[*ssa.Function]*qsummary{}, problems: map[string]token.Pos{}}
 	q.buildAlphabet([]*ssa.Function{quoteFn, joinFn})
@@ -166,7 +176,7 @@ func runC15(c *Ctx) {
 	c.Extra["transitions"] = totalSteps
 	c.Extra["traces_validated_against_impl"] = 0
 	c.Extra["exhaustive"] = true
-	rulePoolReset(c, []*ssa.Function{quoteFn, joinFn})
+	rulePoolReset(c, []*ssa.Function{quoteFn, joinFn, P.Func("shell", "", "Split")})
 	ruleSplitViaScanner(c, splitFn)
 }
 
